@@ -297,7 +297,11 @@ pub fn m_replay_to_duration_times() {
     let cfg = blank_config();
     let s = Session::new();
     let tk = mk_tokinizer(&cfg, &s);
-    let f = crate::verif_k::c05::fields2("source", TokenType::Time(dt(d1, s1), tz0()), "target", TokenType::Time(dt(d2, s2), tz0()));
+    // the zones the two times are written in (the stored instants are UTC: the zones must not enter the difference)
+    let o1: i32 = vany(); let o2: i32 = vany();
+    vassume(o1 >= -12 * 60 && o1 <= 14 * 60 && o2 >= -12 * 60 && o2 <= 14 * 60);
+    let z = |o: i32| crate::types::TimeOffset { name: "Z".to_string(), offset: o };
+    let f = crate::verif_k::c05::fields2("source", TokenType::Time(dt(d1, s1), z(o1)), "target", TokenType::Time(dt(d2, s2), z(o2)));
     match crate::tokinizer::verif_k_local::to_duration(&cfg, &tk, &f) {
         Ok(TokenType::Duration(d)) => assert!(d.num_seconds() == ((d1 - d2) * 86400 + s1 as i64 - s2 as i64).abs()),
         _ => assert!(false),
@@ -491,14 +495,14 @@ pub fn m_replay_program() {
     vassume(n >= 1 && n <= 6);
     let mut prog = [0u8; 6];
     let mut i = 0usize;
-    while i < n as usize { prog[i] = vany(); vassume(prog[i] < 22); i += 1; }
+    while i < n as usize { prog[i] = vany(); vassume(prog[i] < 27); i += 1; }
     let mut cs = [0f64; 6];
     i = 0;
     while i < n as usize { cs[i] = vany(); i += 1; }
     let cfg = blank_config();
     let session = Session::new();
-    let names: [&[&str]; 4] = [&["x"], &["y"], &["x", "y"], &["x", "y", "z"]];
-    let mut env: [Option<f64>; 4] = [None, None, None, None];
+    let names: [&[&str]; 6] = [&["x"], &["y"], &["x", "y"], &["x", "y", "z"], &["u", "-", "v"], &["w"]];
+    let mut env: [Option<f64>; 6] = [None, None, None, None, None, None];
     i = 0;
     while i < n as usize {
         let t = prog[i] as usize;
@@ -506,10 +510,16 @@ pub fn m_replay_program() {
         let (lhs, kind, src): (Option<usize>, u8, usize) = if t < 15 { let nm = t / 5; match t % 5 { 0 => (Some(nm), 0, 0), 1 => (Some(nm), 1, nm), 2 => (None, 2, nm), 3 => (Some(nm), 3, 0), _ => (Some(nm), 4, 0) } }
             else if t == 15 { (Some(1), 5, 0) } else if t == 16 { (Some(0), 6, 2) }
             // 17: X = c   18: X + c   19: x y z = c   20: x y z + x + c   21: x y  y + c
-            else if t == 17 { (Some(0), 7, 0) } else if t == 18 { (None, 8, 0) } else if t == 19 { (Some(3), 0, 0) } else if t == 20 { (None, 9, 3) } else { (None, 10, 2) };
+            else if t == 17 { (Some(0), 7, 0) } else if t == 18 { (None, 8, 0) } else if t == 19 { (Some(3), 0, 0) } else if t == 20 { (None, 9, 3) } else if t == 21 { (None, 10, 2) }
+            // 22: u-v = c   23: u-v = u-v + c   24: u-v + c
+            else if t == 22 { (Some(4), 0, 0) } else if t == 23 { (Some(4), 1, 4) } else if t == 24 { (None, 2, 4) }
+            // 25: w = c%   26: c - -w  (w holds a percentage)
+            else if t == 25 { (Some(5), 11, 0) } else { (None, 12, 5) };
         let mut tk = mk_tokinizer(&cfg, &session);
         let mut pos = 0usize;
-        let push_name = |tk: &mut Tokinizer, pos: &mut usize, nm: usize| { for w in names[nm].iter() { tk.token_infos.push(c03_ti(*pos, w, TokenType::Text(w.to_string()))); *pos += w.len() + 1; } };
+        let push_name = |tk: &mut Tokinizer, pos: &mut usize, nm: usize| { for w in names[nm].iter() {
+            let t = if w.len() == 1 && !w.chars().next().unwrap().is_alphanumeric() { TokenType::Operator(w.chars().next().unwrap()) } else { TokenType::Text(w.to_string()) };
+            tk.token_infos.push(c03_ti(*pos, w, t)); *pos += w.len() + 1; } };
         let push_op = |tk: &mut Tokinizer, pos: &mut usize, ch: char| { tk.token_infos.push(c03_ti(*pos, "o", TokenType::Operator(ch))); *pos += 2; };
         let push_num = |tk: &mut Tokinizer, pos: &mut usize, v: f64| { tk.token_infos.push(c03_ti(*pos, "1", TokenType::Number(v, NumberType::Decimal))); *pos += 2; };
         let push_cap = |tk: &mut Tokinizer, pos: &mut usize, nm: usize| { for w in names[nm].iter() { tk.token_infos.push(c03_ti(*pos, &w.to_uppercase(), TokenType::Text(w.to_uppercase()))); *pos += w.len() + 1; } };
@@ -517,6 +527,8 @@ pub fn m_replay_program() {
         let second = if kind == 9 { 0usize } else { 1usize };
         vassume(!(kind == 9 || kind == 10) || env[second].is_some());
         let want: Option<f64> = match kind {
+            11 => { tk.token_infos.push(c03_ti(pos, "1%", TokenType::Percent(c))); Some(c) }
+            12 => { push_num(&mut tk, &mut pos, c); push_op(&mut tk, &mut pos, '-'); push_op(&mut tk, &mut pos, '-'); push_name(&mut tk, &mut pos, src); env[src].map(|w| c * (1.0 + w / 100.0)) }
             7 => { push_num(&mut tk, &mut pos, c); Some(c) }
             8 => { push_cap(&mut tk, &mut pos, src); push_op(&mut tk, &mut pos, '+'); push_num(&mut tk, &mut pos, c); env[src].map(|v| v + c) }
             9 => { push_name(&mut tk, &mut pos, src); push_op(&mut tk, &mut pos, '+'); push_name(&mut tk, &mut pos, 0); push_op(&mut tk, &mut pos, '+'); push_num(&mut tk, &mut pos, c); env[src].and_then(|v| env[0].map(|w| v + w + c)) }
@@ -528,7 +540,7 @@ pub fn m_replay_program() {
             5 => { push_name(&mut tk, &mut pos, 0); env[0] }
             _ => { push_name(&mut tk, &mut pos, src); push_op(&mut tk, &mut pos, '*'); push_num(&mut tk, &mut pos, c); env[src].map(|v| v * c) }
         };
-        vassume(kind == 0 || kind == 3 || kind == 4 || kind == 7 || env[if kind == 5 { 0 } else { src }].is_some());
+        vassume(kind == 0 || kind == 3 || kind == 4 || kind == 7 || kind == 11 || env[if kind == 5 { 0 } else { src }].is_some());
         crate::variable::update_token_variables(&mut tk);
         tk.token_generator();
         tk.token_cleaner();
@@ -887,3 +899,37 @@ pub fn m_replay_variable_operand() {
 }
 #[cfg(kani)]
 pub fn m_replay_variable_operand() {}
+
+/// the shown clock time natively: (second of day of the instant, zone offset in minutes)
+#[cfg(not(kani))]
+pub fn m_replay_time_print() {
+    let sod: u32 = vany(); let off: i32 = vany();
+    vassume(sod < 86400 && off >= -12 * 60 && off <= 14 * 60);
+    let cfg = blank_config();
+    let s = Session::new();
+    let t = dt(738000, sod);
+    let out = TimeItem(t, crate::types::TimeOffset { name: "ZZZ".to_string(), offset: off }).print(&cfg, &s);
+    let local = (sod as i64 + off as i64 * 60).rem_euclid(86400);
+    let want = alloc::format!("{:02}:{:02}:{:02} ZZZ", local / 3600, (local / 60) % 60, local % 60);
+    assert!(out == want);
+}
+#[cfg(kani)]
+pub fn m_replay_time_print() {}
+
+/// the printed date natively: (zone offset in minutes): a date prints as its own calendar date under every zone
+#[cfg(not(kani))]
+pub fn m_replay_date_print() {
+    let off: i32 = vany();
+    vassume(off >= -12 * 60 && off <= 14 * 60);
+    let cfg = real_config();
+    let s = Session::new();
+    for (y, m, d) in [(2020, 2, 12), (2021, 1, 1), (2019, 12, 31), (2024, 2, 29)].iter() {
+        let day = NaiveDate::from_ymd_opt(*y, *m, *d).unwrap();
+        let out = crate::compiler::date::DateItem(day, crate::types::TimeOffset { name: "ZZZ".to_string(), offset: off }).print(&cfg, &s);
+        let reference = crate::compiler::date::DateItem(day, crate::types::TimeOffset { name: "ZZZ".to_string(), offset: 0 }).print(&cfg, &s);
+        assert!(out == reference);
+        assert!(out.contains(&alloc::format!("{}", d)) && out.contains(&alloc::format!("{}", y)));
+    }
+}
+#[cfg(kani)]
+pub fn m_replay_date_print() {}
